@@ -13,6 +13,9 @@ fn main() {
   }
   let id = args[1].clone();
   let code = match id.as_str() {
+    "C03" => runner::dispatch(props::c03::spec(), &args),
+    "C04" => runner::dispatch(props::c04::spec(), &args),
+    "C14" => runner::dispatch(props::c14::spec(), &args),
     "C15" => runner::dispatch(props::c15::spec(), &args),
     "C19" => runner::dispatch(props::c19::spec(), &args),
     "C18" => runner::dispatch(props::c18::spec(), &args),
